@@ -377,7 +377,11 @@ fn one_symbol<const CELLS: usize, const PROPS: usize, const UPDATE: bool>() {
     assume(total < (1usize << 62));
 
     // --- real code under the bit oracle
-    let mut d = light_state::<CELLS>(LzmaProperties { lc, lp, pb }, None);
+    // the size in effect is symbolic: one symbol's decoding must not depend on it (overshoot is
+    // detected by the caller's size rules, never repaired by shortening a copy)
+    let us_some = t.bool();
+    let us_val = t.u64();
+    let mut d = light_state::<CELLS>(LzmaProperties { lc, lp, pb }, if us_some { Some(us_val) } else { None });
     d.state = state;
     d.rep = rep;
     let mut ghost = GhostWindow::new(total, dict, hist, far);
@@ -1491,7 +1495,7 @@ pub fn reset_state_fill_0_0() {
     reset_equiv::<1, 0, 0, 0, 768, true>()
 }
 
-//@ harness props=C14,C02 tier=quick unwind=8 unwindset=spec_fill:1540,extend_with:1540 mem_gb=10 timeout=1500
+//@ harness props=C14,C02,C07 tier=quick unwind=8 unwindset=spec_fill:1540,extend_with:1540 mem_gb=10 timeout=1500
 //@ bound: reset_state(p) with lc=0 lp=1 on a dirty lc+lp = 0 state (reallocate branch)
 #[cfg_attr(kani, kani::proof)]
 #[cfg_attr(kani, kani::stub(std::fmt::format, crate::verif_common::stub_format))]
@@ -3260,4 +3264,101 @@ pub fn partial_p19_r8_l5_20_3() {
 #[cfg_attr(kani, kani::stub(crate::decode::lzma::DecoderState::process_next_inner, crate::decode::lzma::verif_h::abs_symbol))]
 pub fn partial_p19_r8_l19_2_20() {
     partial_step::<19, 8, 19, 2, 20>()
+}
+
+
+//@ harness props=C01,C08 tier=quick unwind=10 unwindset=RangeDecoder.*E3getB:28,decode_distance:28 mem_gb=10 timeout=1500 native=no opt_covers=dry_longest,literal_lc1_lp3,longest_match_pb4
+//@ bound: ONE symbol of process_next_inner(update=true), concrete lc=0 lp=0 pb=0 (768 cells), every valid state, any decision bits, symbolic size in effect
+#[cfg_attr(kani, kani::proof)]
+#[cfg_attr(kani, kani::stub(std::fmt::format, crate::verif_common::stub_format))]
+#[cfg_attr(kani, kani::stub(std::io::Error::is_interrupted, crate::verif_common::stub_not_interrupted))]
+#[cfg_attr(kani, kani::stub(crate::decode::rangecoder::RangeDecoder::decode_bit, crate::decode::rangecoder::verif_h::oracle_decode_bit))]
+#[cfg_attr(kani, kani::stub(crate::decode::rangecoder::RangeDecoder::get_bit, crate::decode::rangecoder::verif_h::oracle_get_bit))]
+pub fn sym_conformance_lc0() {
+    one_symbol::<768, 1000, true>()
+}
+
+//@ harness props=C10,C14,C12 tier=quick unwind=8 unwindset=process_mode:5,default_read_exact:4,extend_with:3 mem_gb=6 timeout=600 native=no
+//@ bound: raw LzmaDecoder with memlimit 0: decompress (fails on the limit), reset, decompress again on a second input: the limit is enforced on every call
+#[cfg_attr(kani, kani::proof)]
+#[cfg_attr(kani, kani::stub(std::fmt::format, crate::verif_common::stub_format))]
+#[cfg_attr(kani, kani::stub(std::io::Error::is_interrupted, crate::verif_common::stub_not_interrupted))]
+#[cfg_attr(kani, kani::stub(crate::decode::lzma::DecoderState::process_next_inner, crate::decode::lzma::verif_h::abs_symbol))]
+#[cfg_attr(kani, kani::stub(crate::decode::lzma::DecoderState::reset_state, crate::decode::lzma::verif_h::observing_reset_state_lzma))]
+#[cfg_attr(kani, kani::stub(crate::decode::lzbuffer::LzCircularBuffer::from_stream, crate::decode::lzbuffer::verif_h::circ_from_stream_with_capacity))]
+pub fn raw_lzma_decompress_twice_limit() {
+    let mut t = Tape::<32>::new();
+    let f1 = [t.u8(), t.u8(), t.u8(), t.u8(), t.u8(), t.u8(), t.u8(), 0xEE];
+    let f2 = [t.u8(), t.u8(), t.u8(), t.u8(), t.u8(), t.u8(), t.u8(), 0xEE];
+    let mut st = light_state::<0>(LzmaProperties { lc: 0, lp: 0, pb: 0 }, Some(1));
+    set_script(&mut st, [script(2, K_LIT), script(2, K_LIT), script(20, K_LIT), script(20, K_LIT)]);
+    let mut dec = LzmaDecoder {
+        params: LzmaParams { properties: LzmaProperties { lc: 0, lp: 0, pb: 0 }, dict_size: 0x1000, unpacked_size: Some(1) },
+        memlimit: 0,
+        state: st,
+    };
+    let mut rd1 = ArrReader::<8>::new(f1, 8);
+    let mut sink1 = CountSink::new();
+    let r1 = dec.decompress(&mut rd1, &mut sink1);
+    let e1 = r1.is_err();
+    forget(r1);
+    vassert!(e1, "raw decoder: the memory limit is enforced on the first decompress");
+    dec.reset(None);
+    let mut rd2 = ArrReader::<8>::new(f2, 8);
+    let mut sink2 = CountSink::new();
+    let r2 = dec.decompress(&mut rd2, &mut sink2);
+    let e2 = r2.is_err();
+    forget(r2);
+    vassert!(e2, "raw decoder: the memory limit is still enforced after reset, on every later decompress");
+    vassert!(sink2.bytes == 0, "raw decoder: nothing is delivered beyond the limit");
+    vcover!(true, "end_reached");
+    forget(dec);
+}
+
+
+// ----- scripted stand-in for DecoderState::process_stream (Stream data-arm glue harnesses) -----
+pub static PS_CALLS: std::sync::atomic::AtomicUsize = std::sync::atomic::AtomicUsize::new(0);
+pub static PS_FAIL_AT: std::sync::atomic::AtomicUsize = std::sync::atomic::AtomicUsize::new(usize::MAX);
+/// 0 = decoding error (LzmaError), 1 = I/O error from the sink (IoError)
+pub static PS_FAIL_KIND: std::sync::atomic::AtomicUsize = std::sync::atomic::AtomicUsize::new(0);
+/// 1 = consume the whole input (normal), 0 = consume nothing (declared size already reached)
+pub static PS_CONSUME: std::sync::atomic::AtomicUsize = std::sync::atomic::AtomicUsize::new(1);
+pub static PS_LEN0: std::sync::atomic::AtomicUsize = std::sync::atomic::AtomicUsize::new(usize::MAX);
+pub static PS_LEN1: std::sync::atomic::AtomicUsize = std::sync::atomic::AtomicUsize::new(usize::MAX);
+pub static PS_LEN2: std::sync::atomic::AtomicUsize = std::sync::atomic::AtomicUsize::new(usize::MAX);
+impl DecoderState {
+    pub fn scripted_process_stream<W: io::Write, LZB: LzBuffer<W>, R: io::BufRead>(
+        &mut self,
+        _output: &mut LZB,
+        rangecoder: &mut RangeDecoder<'_, R>,
+    ) -> error::Result<()> {
+        use std::sync::atomic::Ordering::Relaxed;
+        let k = PS_CALLS.load(Relaxed);
+        PS_CALLS.store(k + 1, Relaxed);
+        let n = match rangecoder.stream.fill_buf() {
+            Ok(b) => b.len(),
+            Err(e) => return Err(error::Error::IoError(e)),
+        };
+        if PS_CONSUME.load(Relaxed) == 1 {
+            rangecoder.stream.consume(n);
+        }
+        if k == 0 {
+            PS_LEN0.store(n, Relaxed);
+        } else if k == 1 {
+            PS_LEN1.store(n, Relaxed);
+        } else {
+            PS_LEN2.store(n, Relaxed);
+        }
+        // the coder state moves, so that the write-back of (range, code) is observable
+        rangecoder.range = rangecoder.range.rotate_left(1) ^ 0x5A5A_0000;
+        rangecoder.code = rangecoder.code.wrapping_add(n as u32 + 1);
+        if k == PS_FAIL_AT.load(Relaxed) {
+            return if PS_FAIL_KIND.load(Relaxed) == 1 {
+                Err(error::Error::IoError(crate::verif_common::io_fault()))
+            } else {
+                Err(error::Error::LzmaError(String::new()))
+            };
+        }
+        Ok(())
+    }
 }
